@@ -329,6 +329,28 @@ func VerifHarness_C05_NLPLimits() {
 		vFill(&c)
 		cmds = append(cmds, c)
 	}
+	if verifBool("decoupled") {
+		// twelve commands that rank high lexically (query words in the command line, among many
+		// other words) and one that ranks low lexically but is closest by TF-IDF (its
+		// description is exactly the query): which one is first depends on the window size
+		cmds = nil
+		for i := 0; i < 12; i++ {
+			u := string(rune('a' + i))
+			c := Command{Command: "tool" + u + " snapshot backup x" + u + " y" + u + " z" + u + " w" + u + " v" + u, Description: "tool " + u + " misc" + u}
+			vFill(&c)
+			cmds = append(cmds, c)
+		}
+		c := Command{Command: "qq", Description: "snapshot backup"}
+		vFill(&c)
+		cmds = append(cmds, c)
+		// commands that do not match: they make the query words rare, so the similarity counts
+		for i := 0; i < 40; i++ {
+			u := string(rune('a'+i%26)) + string(rune('a'+i/26))
+			f := Command{Command: "fill" + u, Description: "other " + u + " thing" + u}
+			vFill(&f)
+			cmds = append(cmds, f)
+		}
+	}
 	db := &Database{Commands: cmds}
 	db.BuildUniversalIndex()
 	db.buildTFIDFSearcher()
